@@ -62,6 +62,8 @@ pub enum LOp {
     Bind { localhost: bool },
     /// accept one connection; the accepted stream reads the nonce and is dropped `keep` ticks later
     Accept { keep: u16 },
+    /// `n` (2 or 3) accept() calls parked concurrently on the one listener (join!); completes when all returned
+    AcceptPar { n: u8, keep: u16 },
     Drop,
     Sleep { ticks: u16 },
 }
@@ -96,7 +98,7 @@ pub fn o4_exposed(sc: &Scenario) -> bool {
     if sc.lops.iter().skip(1).any(|o| matches!(o, LOp::Drop | LOp::Bind { .. })) {
         return true;
     }
-    let accepts = sc.lops.iter().filter(|o| matches!(o, LOp::Accept { .. })).count();
+    let accepts: usize = sc.lops.iter().map(|o| match o { LOp::Accept { .. } => 1, LOp::AcceptPar { n, .. } => *n as usize, _ => 0 }).sum();
     accepts < sc.conns.len()
 }
 
@@ -114,6 +116,9 @@ fn gen_scenario(rng: &mut Rng) -> Scenario {
     // pending requests stay below tcp_capacity (documented panic otherwise)
     cfg.tcp_capacity = *rng.pick(&[n + 1, n + 1, 8, 64]);
     let mut conns: Vec<Connector> = Vec::new();
+    // a third of the scenarios send their requests in one burst (same start tick): several requests
+    // reach the listener in one step
+    let burst = if rng.chance(1, 3) { Some(rng.range(1, 6 + 2 * lat) as u16) } else { None };
     for _ in 0..n {
         let host = rng.usize(0, hosts - 1);
         let via = if host == 0 { *rng.pick(&[Via::Ip, Via::Loopback]) } else { *rng.pick(&[Via::Ip, Via::Name]) };
@@ -126,6 +131,9 @@ fn gen_scenario(rng: &mut Rng) -> Scenario {
                 start += 1;
             }
         }
+        if let Some(b) = burst {
+            start = b;
+        }
         let timeout = if rng.chance(1, 4) { Some(rng.range(1, 2 * lat + 8) as u16) } else { None };
         conns.push(Connector { host, via, target, start, timeout, hold: rng.range(0, 6) as u16 });
     }
@@ -134,11 +142,19 @@ fn gen_scenario(rng: &mut Rng) -> Scenario {
     if orderly {
         lops.push(LOp::Bind { localhost: all_loop && rng.chance(1, 2) });
         let extra = rng.usize(0, 1);
-        for _ in 0..n + extra {
+        let mut left = n + extra;
+        while left > 0 {
             if rng.chance(1, 2) {
                 lops.push(LOp::Sleep { ticks: rng.range(1, 4 + 2 * lat) as u16 });
             }
-            lops.push(LOp::Accept { keep: rng.range(0, 6) as u16 });
+            if left >= 2 && rng.chance(1, 3) {
+                let k = if left >= 3 && rng.chance(1, 3) { 3 } else { 2 };
+                lops.push(LOp::AcceptPar { n: k as u8, keep: rng.range(0, 6) as u16 });
+                left -= k;
+            } else {
+                lops.push(LOp::Accept { keep: rng.range(0, 6) as u16 });
+                left -= 1;
+            }
         }
     } else {
         if rng.chance(1, 5) {
@@ -147,7 +163,8 @@ fn gen_scenario(rng: &mut Rng) -> Scenario {
         lops.push(LOp::Bind { localhost: rng.chance(1, 5) });
         for _ in 0..rng.usize(0, 7) {
             lops.push(match rng.below(10) {
-                0..=4 => LOp::Accept { keep: rng.range(0, 6) as u16 },
+                0..=3 => LOp::Accept { keep: rng.range(0, 6) as u16 },
+                4 => LOp::AcceptPar { n: rng.range(2, 3) as u8, keep: rng.range(0, 6) as u16 },
                 5 | 6 => LOp::Sleep { ticks: rng.range(1, 4 + 2 * lat) as u16 },
                 7 => LOp::Drop,
                 _ => LOp::Bind { localhost: rng.chance(1, 5) },
@@ -157,13 +174,28 @@ fn gen_scenario(rng: &mut Rng) -> Scenario {
     let mut script = Vec::new();
     let remote: Vec<usize> = conns.iter().filter(|c| c.host != 0).map(|c| c.host).collect();
     if !remote.is_empty() && rng.chance(1, 2) {
-        // hold and one-way partitions are not mixed (documented as unsupported)
-        let part = rng.chance(1, 2);
+        // hold and one-way partitions are not mixed (documented as unsupported); a full partition
+        // of a held link is fine: it drops what the hold kept back
+        let kind = rng.below(5);
+        let part = kind < 2;
         for _ in 0..rng.usize(1, 2) {
             let h = *rng.pick(&remote);
             let s1 = rng.range(1, 8 + 3 * lat) as u32;
             let s2 = s1 + rng.range(1, 6 + 2 * lat) as u32;
-            if part {
+            if kind == 4 {
+                // hold, then partition the same link while requests are kept back, then repair / release
+                script.push((s1, LinkAct::Hold(h, 0)));
+                script.push((s2, LinkAct::Partition(h, 0)));
+                let s3 = s2 + rng.range(1, 6 + 2 * lat) as u32;
+                match rng.below(3) {
+                    0 => script.push((s3, LinkAct::Repair(h, 0))),
+                    1 => script.push((s3, LinkAct::Release(h, 0))),
+                    _ => {
+                        script.push((s3, LinkAct::Repair(h, 0)));
+                        script.push((s3 + 1, LinkAct::Release(h, 0)));
+                    }
+                }
+            } else if part {
                 script.push((s1, if rng.chance(1, 2) { LinkAct::Partition(h, 0) } else { LinkAct::PartitionOneway(h, 0) }));
                 if rng.chance(3, 4) {
                     script.push((s2, LinkAct::Repair(h, 0)));
@@ -266,6 +298,22 @@ async fn acceptor(sh: Sh, a: usize, mut s: TcpStream, keep: u16, wait: u64) {
     sh.host_ev(Ev::AccDrop { a }, format!("accepted #{a}: stream dropped"));
 }
 
+async fn accept_one(sh: &Sh, li: &TcpListener, keep: u16, wait: u64) {
+    sh.host_ev(Ev::AcceptStart, "listener: accept ...".into());
+    match li.accept().await {
+        Ok((s, origin)) => {
+            let a = sh.accepted.get();
+            sh.accepted.set(a + 1);
+            let (local, peer) = (s.local_addr().unwrap(), s.peer_addr().unwrap());
+            sh.host_ev(Ev::AcceptOk { a, local, peer, origin }, format!("listener: accept -> #{a} local={local} peer={peer} origin={origin}"));
+            tokio::task::spawn_local(acceptor(sh.clone(), a, s, keep, wait));
+        }
+        Err(e) => {
+            sh.log.ev(format!("listener: accept -> Err {}", kind_name(e.kind())));
+        }
+    }
+}
+
 async fn listener_prog(sh: Sh, sc: Rc<Scenario>) {
     let mut l: Option<TcpListener> = None;
     let wait = sc.cfg.max_latency_ticks() + 6;
@@ -286,18 +334,14 @@ async fn listener_prog(sh: Sh, sc: Rc<Scenario>) {
             }
             LOp::Accept { keep } => {
                 let Some(li) = &l else { continue };
-                sh.host_ev(Ev::AcceptStart, "listener: accept ...".into());
-                match li.accept().await {
-                    Ok((s, origin)) => {
-                        let a = sh.accepted.get();
-                        sh.accepted.set(a + 1);
-                        let (local, peer) = (s.local_addr().unwrap(), s.peer_addr().unwrap());
-                        sh.host_ev(Ev::AcceptOk { a, local, peer, origin }, format!("listener: accept -> #{a} local={local} peer={peer} origin={origin}"));
-                        tokio::task::spawn_local(acceptor(sh.clone(), a, s, *keep, wait));
-                    }
-                    Err(e) => {
-                        sh.log.ev(format!("listener: accept -> Err {}", kind_name(e.kind())));
-                    }
+                accept_one(&sh, li, *keep, wait).await;
+            }
+            LOp::AcceptPar { n, keep } => {
+                let Some(li) = &l else { continue };
+                if *n >= 3 {
+                    tokio::join!(accept_one(&sh, li, *keep, wait), accept_one(&sh, li, *keep, wait), accept_one(&sh, li, *keep, wait));
+                } else {
+                    tokio::join!(accept_one(&sh, li, *keep, wait), accept_one(&sh, li, *keep, wait));
                 }
             }
             LOp::Drop => {
@@ -385,6 +429,9 @@ async fn host_main(sh: Sh, host: usize, sc: Rc<Scenario>) -> turmoil::Result {
 struct Outcome {
     recs: Vec<Rec>,
     syn_src: Vec<Option<SocketAddr>>,
+    /// some but not all SYNs of the connects started together on one host were seen on the link:
+    /// which is whose cannot be told
+    syn_amb: Vec<bool>,
     hook_streams: Vec<usize>,
     end_step: u32,
     /// SYNs still sitting on a link when the run ended
@@ -401,7 +448,7 @@ fn step_cap(sc: &Scenario) -> u32 {
     for o in &sc.lops {
         t += match o {
             LOp::Sleep { ticks } => *ticks as u64,
-            LOp::Accept { keep } => *keep as u64 + lat + 8,
+            LOp::Accept { keep } | LOp::AcceptPar { keep, .. } => *keep as u64 + lat + 8,
             _ => 1,
         };
     }
@@ -436,6 +483,7 @@ fn execute(sc: &Scenario, keep: bool) -> (Report, Option<Outcome>) {
             sim.host(host_name(i), move || host_main(shc.clone(), i, scc.clone()));
         }
         let mut syn_src: Vec<Option<SocketAddr>> = vec![None; sc.conns.len()];
+        let mut syn_amb: Vec<bool> = vec![false; sc.conns.len()];
         let mut prev_after: Vec<Flight> = Vec::new();
         let mut holds: Vec<usize> = Vec::new();
         let last_script = sc.script.iter().map(|(s, _)| *s).max().unwrap_or(0);
@@ -489,6 +537,10 @@ fn execute(sc: &Scenario, keep: bool) -> (Report, Option<Outcome>) {
                     for (x, f) in xs.iter().zip(syns) {
                         syn_src[*x] = Some(f.src);
                     }
+                } else if !syns.is_empty() {
+                    for x in &xs {
+                        syn_amb[*x] = true;
+                    }
                 }
             }
             let moving = after.iter().any(|f| {
@@ -523,7 +575,7 @@ fn execute(sc: &Scenario, keep: bool) -> (Report, Option<Outcome>) {
         let hook_streams = (0..sc.hosts).map(|h| sim.verif_host_table_counts(host_name(h)).tcp_streams).collect();
         let stuck_syn = inflight(&sim).into_iter().filter(is_syn).map(|f| f.src).collect();
         drop(sim);
-        out = Some(Outcome { recs: sh.evs.borrow().clone(), syn_src, hook_streams, end_step, stuck_syn, audited });
+        out = Some(Outcome { recs: sh.evs.borrow().clone(), syn_src, syn_amb, hook_streams, end_step, stuck_syn, audited });
     });
 
     let mut violation = None;
@@ -603,6 +655,8 @@ struct CInfo {
     dropped: bool,
     /// arrival of the request at h0 as an interval of t3 instants
     arr: Option<(u64, u64)>,
+    /// the arrival cannot be determined (see Outcome::syn_amb)
+    arr_unknown: bool,
     lost_t3: Option<u64>,
     /// index of the accept that returned this connector's stream
     paired: Option<usize>,
@@ -686,13 +740,14 @@ fn judge(sc: &Scenario, o: &Outcome, probes: &mut Counters) -> (Option<Violation
     let recs = &o.recs;
     let lat = sc.cfg.max_latency_ticks();
     let n = sc.conns.len();
-    let mut ci: Vec<CInfo> = vec![CInfo { started: false, start_t3: 0, res: Res::Pending, res_t3: 0, res_seq: 0, dropped: false, arr: None, lost_t3: None, paired: None }; n];
+    let mut ci: Vec<CInfo> = vec![CInfo { started: false, start_t3: 0, res: Res::Pending, res_t3: 0, res_seq: 0, dropped: false, arr: None, arr_unknown: false, lost_t3: None, paired: None }; n];
     let mut acc: Vec<AInfo> = Vec::new();
     let mut levs: Vec<(u64, LState)> = Vec::new();
     let mut ldrops: Vec<(u64, u64)> = Vec::new(); // (t3, seq)
     let mut bind_failed_after_drop: Option<u64> = None;
     let mut was_dropped = false;
-    let mut last_listener_ev_is_accept_start = false;
+    let mut accepts_outstanding = 0i64;
+    let mut max_parked = 0i64;
     for r in recs {
         match &r.ev {
             Ev::ConnStart { x } => {
@@ -716,7 +771,6 @@ fn judge(sc: &Scenario, o: &Outcome, probes: &mut Counters) -> (Option<Violation
             }
             Ev::ConnDrop { x } => ci[*x].dropped = true,
             Ev::LBind { ok, localhost } => {
-                last_listener_ev_is_accept_start = false;
                 if *ok {
                     levs.push((r.t3, LState::Bound { localhost: *localhost }));
                     if was_dropped {
@@ -727,15 +781,17 @@ fn judge(sc: &Scenario, o: &Outcome, probes: &mut Counters) -> (Option<Violation
                 }
             }
             Ev::LDrop => {
-                last_listener_ev_is_accept_start = false;
                 levs.push((r.t3, LState::Unbound));
                 ldrops.push((r.t3, r.seq));
                 was_dropped = true;
             }
-            Ev::AcceptStart => last_listener_ev_is_accept_start = true,
+            Ev::AcceptStart => {
+                accepts_outstanding += 1;
+                max_parked = max_parked.max(accepts_outstanding);
+            }
             Ev::AcceptOk { a, local, peer, origin } => {
-                last_listener_ev_is_accept_start = false;
                 debug_assert_eq!(*a, acc.len());
+                accepts_outstanding -= 1;
                 acc.push(AInfo { seq: r.seq, t3: r.t3, local: *local, peer: *peer, origin: *origin, nonce: None, dropped: false, pair: None });
             }
             Ev::Nonce { a, got } => acc[*a].nonce = Some(*got),
@@ -785,7 +841,9 @@ fn judge(sc: &Scenario, o: &Outcome, probes: &mut Counters) -> (Option<Violation
                 }
             }
             None => {
-                if dir_state(recs, c.host, ci[x].start_t3) == DirState::Healthy {
+                if o.syn_amb[x] {
+                    ci[x].arr_unknown = true;
+                } else if dir_state(recs, c.host, ci[x].start_t3) == DirState::Healthy {
                     ci[x].arr = Some((3 * s0 - 1, 3 * s0 + 2));
                 }
             }
@@ -937,12 +995,40 @@ fn judge(sc: &Scenario, o: &Outcome, probes: &mut Counters) -> (Option<Violation
         }
         // must this connect be refused, and by when?
         let mut reason: Option<(String, u64, &'static str)> = None;
+        let mut ignore_hold = false;
+        // first partition of the direction h -> h0 imposed after the call, while the connect was
+        // still pending and before its request was (certainly) delivered
+        let part_while_pending: Option<u64> = if c.host == 0 || c.target == Target::Unowned {
+            None
+        } else {
+            recs.iter()
+                .filter(|r| r.t3 > ci[x].start_t3)
+                .filter(|r| match &r.ev {
+                    Ev::Act(LinkAct::Partition(a, b)) => (*a == c.host && *b == 0) || (*a == 0 && *b == c.host),
+                    Ev::Act(LinkAct::PartitionOneway(a, b)) => *a == c.host && *b == 0,
+                    _ => false,
+                })
+                .map(|r| r.t3)
+                .next()
+                .filter(|tp| ci[x].res == Res::Pending || ci[x].res_t3 >= *tp)
+                .filter(|_| !ci[x].arr_unknown)
+                .filter(|tp| match ci[x].arr {
+                    None => true,
+                    Some((lo, _)) => lo > *tp,
+                })
+        };
+        let was_held_at = |tp: u64| dir_state(recs, c.host, tp - 1) == DirState::Held;
         if c.target == Target::Unowned {
             reason = Some(("the address is owned by no host".into(), start_step + lat + 2, "refused_unowned_address"));
         } else if c.host != 0 && dir_state(recs, c.host, ci[x].start_t3) == DirState::Partitioned {
             reason = Some((format!("the direction h{} -> h0 was partitioned when connect was called", c.host), start_step + lat + 2, "refused_partitioned_at_call"));
+        } else if let Some(tp) = part_while_pending {
+            // whatever the link kept (in flight or held back) is lost when the direction is partitioned
+            reason = Some((format!("the direction h{} -> h0 was partitioned before step {} while the connect was pending and its request had not been delivered", c.host, step_of(tp)), step_of(tp) + 2, if was_held_at(tp) { "refused_partition_of_held_request" } else { "refused_partition_while_pending" }));
+            ignore_hold = true;
         } else if let Some(t) = ci[x].lost_t3 {
             reason = Some((format!("its SYN was dropped by a partition imposed before step {}", step_of(t)), step_of(t) + 2, "refused_syn_lost_in_flight"));
+            ignore_hold = true;
         } else if let Some((lo, hi)) = ci[x].arr {
             if c.target == Target::UnboundPort {
                 reason = Some((format!("nobody listens on port {DEAD_PORT}"), (start_step + lat + 2).max(step_of(hi) + 1), "refused_unbound_port"));
@@ -964,7 +1050,7 @@ fn judge(sc: &Scenario, o: &Outcome, probes: &mut Counters) -> (Option<Violation
                 }
             }
         }
-        let held = c.host != 0 && held_within(recs, c.host, ci[x].start_t3, if ci[x].res == Res::Pending { u64::MAX } else { ci[x].res_t3 });
+        let held = !ignore_hold && c.host != 0 && held_within(recs, c.host, ci[x].start_t3, if ci[x].res == Res::Pending { u64::MAX } else { ci[x].res_t3 });
         if held {
             probes.inc("hold_around_handshake");
         }
@@ -986,7 +1072,7 @@ fn judge(sc: &Scenario, o: &Outcome, probes: &mut Counters) -> (Option<Violation
                     probes.inc("cancelled_before_refusal");
                 }
                 Res::Pending => {
-                    let held_now = c.host != 0 && dir_state(recs, c.host, u64::MAX) == DirState::Held;
+                    let held_now = !ignore_hold && c.host != 0 && dir_state(recs, c.host, u64::MAX) == DirState::Held;
                     if !held && !held_now && end_step > *deadline {
                         return (Some(Violation::new("Hang", format!("connector {x}: {why}; the connect is still pending at step {end_step} (end of the run, nothing moves), it should have been refused by step {deadline}"))), false);
                     }
@@ -1020,7 +1106,10 @@ fn judge(sc: &Scenario, o: &Outcome, probes: &mut Counters) -> (Option<Violation
     }
 
     // ---- a live request waits while the listener sits in accept ----
-    if last_listener_ev_is_accept_start {
+    if max_parked >= 2 {
+        probes.inc("accepts_parked_concurrently");
+    }
+    if accepts_outstanding > 0 {
         for x in 0..n {
             if ci[x].res != Res::Pending || sc.conns[x].target != Target::Listener {
                 continue;
@@ -1225,6 +1314,16 @@ impl Property for C12 {
                     let mut c = sc.clone();
                     c.lops[i] = LOp::Accept { keep: 0 };
                     out.push(c);
+                }
+                LOp::AcceptPar { n, keep } => {
+                    let mut c = sc.clone();
+                    c.lops[i] = LOp::Accept { keep: *keep };
+                    out.push(c);
+                    if *n > 2 {
+                        let mut c = sc.clone();
+                        c.lops[i] = LOp::AcceptPar { n: 2, keep: *keep };
+                        out.push(c);
+                    }
                 }
                 LOp::Bind { localhost: true } => {
                     let mut c = sc.clone();
